@@ -76,6 +76,13 @@ FORMS = {
     'from-import alias equals the package': ("from olpkg import a as olpkg", ['olpkg']),
     'from-import alias equals another imported name': ("from olpkg.a import val as other, other as val", ['other', 'val']),
     'from-import submodules in non-alphabetical order': ("from olpkg.sub import n, m\nfrom olpkg import p2, amb, a", ['n', 'm', 'p2', 'amb', 'a']),
+    # a package whose __all__ names submodules its __init__ does not import: nothing but a star import may load them
+    'package with __all__, dotted with alias': ("import olpkg.allpkg as ap", ['ap']),
+    'package with __all__, dotted without alias': ("import olpkg.allpkg\nap2 = olpkg.allpkg\nhas = sorted(n for n in ('alpha', 'beta') if hasattr(ap2, n))", ['olpkg', 'ap2', 'has']),
+    'package with __all__, from-import attribute': ("from olpkg.allpkg import val as av, other as ao", ['av', 'ao']),
+    'package with __all__, from-import the package': ("from olpkg import allpkg\nhas = sorted(n for n in ('alpha', 'beta') if hasattr(allpkg, n))", ['allpkg', 'has']),
+    'package with __all__, one submodule only': ("import olpkg.allpkg.beta as b\nimport olpkg.allpkg as ap\nhas = sorted(n for n in ('alpha', 'beta') if hasattr(ap, n))", ['b', 'ap', 'has']),
+    'stdlib package with __all__ of lazy submodules': ("import concurrent.futures as cf\nimport sys\nlazy = sorted(m for m in sys.modules if m.startswith('concurrent.futures.') and m.rsplit('.', 1)[1] in ('process', 'thread'))", ['cf', 'lazy']),
     'stdlib dotted and alias': ("import os.path as op, os\nfrom os.path import join as j, sep\nimport xml.dom.minidom", ['op', 'os', 'j', 'sep', 'xml']),
     'stdlib mix': ("import os.path, olpkg.a as oa\nfrom os import path as osp, sep", ['os', 'oa', 'osp', 'sep']),
 }
